@@ -10,7 +10,8 @@ META = {
              "reference implementation exists in this sandbox). Coq: an executable reference over Z-valued tensors (shape + row-major "
              "data) for broadcasting Add/Sub/Mul/Div/Mod/Pow, comparisons, And/Or/Xor/Not, Where, Transpose, Reshape, Squeeze, Unsqueeze, "
              "Concat, Split, Slice, Gather, GatherElements, GatherND, Expand, Tile, Pad, Reduce{Sum,Prod,Max,Min,SumSquare,L1}, "
-             "ArgMax/ArgMin, CumSum, Trilu, Range, OneHot, TopK, MatMul, Gemm, ScatterElements, ScatterND, MaxPool(2-D); each definition is PROVED, for "
+             "ArgMax/ArgMin, CumSum, Trilu, Range, OneHot, TopK, MatMul, Gemm, ScatterElements, ScatterND, MaxPool(2-D), Clip, Relu, LeakyRelu, variadic Max/Min/Sum (Floor/Ceil/Round, IsNaN/IsInf only on "
+             "integer-valued floats); each definition is PROVED, for "
              "all shapes/attributes in the specification's domain, to satisfy an index-level statement transcribed from the ONNX operator "
              "text (forall valid output index: the source index is in bounds and out[idx] = ...), plus shape lemmas. Tie: single-operator "
              "ONNX models written by the harness (attributes incl. negative axes/steps/modes/keepdims, opset variants where parameters "
@@ -45,6 +46,7 @@ THEOREMS = [
     "C15_trilu_spec", "C15_range_spec", "C15_onehot_spec", "C15_matmul_spec",
     "C15_gemm_spec", "C15_reshape_spec", "C15_squeeze_spec", "C15_unsqueeze_spec",
     "C15_topk_list_spec", "C15_topk_spec", "C15_pool_window_spec", "C15_maxpool2d_spec",
+    "C15_clip_val_spec", "C15_clip_spec", "C15_relu_leaky_spec", "C15_variadic_spec",
     "C15_out_eqb_spec", "C15_prop_ok_reflect", "C15_sign_zero_refuted", "C15_sign_of_zero",
     "C15_nonvacuous_slice_negative_step", "C15_nonvacuous_broadcast_mod", "C15_nonvacuous_reduce_argmax", "C15_nonvacuous_run_ref",
 ]
